@@ -69,6 +69,10 @@ func tryGwWorld(noChecks bool, nsocks int) *gwWorld {
 		fmt.Fprintln(os.Stderr, err)
 		os.Exit(3)
 	}
+	// The barrier's gateway is registered (any address): its keep-alives start and end every step, and a forwarder that
+	// turned unregistered gateways' PULL_DATA away would otherwise stop the harness instead of being compared with the model,
+	// where such a PULL_DATA from one of the histories' own gateways is acknowledged.
+	st.CreateGateway(model.Gateway{GatewayEUI: barrierEUI, IP: net.ParseIP("127.0.0.1"), StrictIP: false})
 	gwRouter := server.NewEventRouter[protocol.EUI, gwevents.GwEvent](16)
 	cfg := server.Parameters{DisableGatewayChecks: noChecks}
 	ctx := &server.Context{Storage: st, Config: &cfg, GwEventRouter: &gwRouter}
